@@ -258,6 +258,9 @@ func propC13(c *Ctx, r *Report) {
 	r.Clauses = append(r.Clauses, "marks cleared, marks restored (E81): a pass driver that runs a phase clearing liveness marks runs afterwards a marking from the statements that stay (a function reaching the statement-root marker)")
 	c.runUnmarkRemarked(r, "unmark.remarked", inPkgs("dxil/internal/passes", "ir"))
 	r.floor("unmark.remarked", 1)
+	r.Clauses = append(r.Clauses, "uses other than loads (E94): a pass function that judges each local by a census of its loads only (a loop over the expressions that skips everything but ExprLoad) also looks at the other users of the local's address - a second, unfiltered loop that resolves expressions to locals, or the call statements; otherwise the stores in front of f(&x) are removed")
+	c.runLoadOnlyCensus(r, "census.loadonly", inPkgs("dxil/internal/passes", "ir"))
+	r.floor("census.loadonly", 1)
 	r.Clauses = append(r.Clauses, sharedAddrClause)
 	c.runSharedAddr(r, "ptr.sharedaddr", inPkgs("ir", "dxil"))
 	r.Clauses = append(r.Clauses, shallowWalkerClause)
